@@ -8,6 +8,7 @@ import Ptn.C19.Binary
 import Ptn.C19.Const
 import Ptn.C19.ConstAcceptStar
 import Ptn.C19.ConstAcceptFtps
+import Ptn.C19.ConstAcceptFtpsRun
 import Ptn.C19.ParentLeg
 import Ptn.C19.ValueRec
 import Ptn.C19.ValueChain
@@ -751,7 +752,7 @@ example : (ftps 3 2 3 2).isSome = true := by decide
     `width = 1` leg 1 of the first / last and leg 2 of every middle main node, with `height = 1` leg 1 of `main 0`
     (the shape `(bd, bd, d)` reserves a bond to a second main node that never comes).  Zero `width`, `height` or
     `bd` is rejected by the positivity checks.  So the accepted range is exactly `width, height, bd ≥ 1`
-    (`⊆`: `ftps_structure_partial`; `⊇` is proved only up to one step: `fork_accept`, `ft_step_accept`). -/
+    (`⊆`: `ftps_structure_partial`; `⊇`: `ftps_structure` below, for all sizes). -/
 example : (ftps 2 1 2 3).map (·.nodes) = some
     [⟨.main 0, none, [.main 1], [0, 1, 2], [3, 3, 2]⟩, ⟨.main 1, some (.main 0), [], [0, 1, 2], [3, 3, 2]⟩] ∧
     (ftps 2 2 1 3).map (·.nodes) = some
@@ -763,6 +764,43 @@ example : (ftps 2 1 2 3).map (·.nodes) = some
 /-- the step condition `FtOK` of `ft_step_accept` holds for the second call of `constant_ftps(d=3, width=2, height=3, bd=2)` -/
 example : FtOK 3 2 3 2 [] (.main [2, 2, 2, 3]) ∧ FtOK 3 3 3 2 [.main [2, 2, 2, 3]] (.sub 1 [2, 2, 3]) := by
   refine ⟨⟨by decide, by decide⟩, by decide, by decide, by decide⟩
+
+/-- **`constant_ftps` completes on exactly the accepted range** (builder B60; no acceptance hypothesis).  For ALL
+    `d` and all `width, height, bd ≥ 1` (the edge ranges `width = 1`, `height = 1` included) every call
+    `constant_ftps(local_state of dimension d, width, height, bd)` makes is accepted by the fork constructor:
+    `∃ st, ftps d width height bd = some st`, with the conclusions of `ftps_structure_partial` (the calls are the
+    documented list, `height` main nodes, every sub-chain has `width - 1` nodes).  Conversely (also
+    `ftps_structure_partial`) a completed run has `width, height, bd ≥ 1`, so `ftps … ≠ none ↔ all three ≥ 1`. -/
+theorem ftps_structure (d width height bd : Nat) :
+    ((ftps d width height bd).isSome = true ↔ (0 < width ∧ 0 < height ∧ 0 < bd)) ∧
+    (0 < width → 0 < height → 0 < bd →
+      ∃ st, ftps d width height bd = some st ∧
+        forkRun (ftpsCalls d width height bd) = some st ∧
+        st.subLens.length = height ∧ ∀ i, i < height → st.subLens[i]? = some (width - 1)) := by
+  have hfw : 0 < width → 0 < height → 0 < bd →
+      ∃ st, ftps d width height bd = some st ∧
+        forkRun (ftpsCalls d width height bd) = some st ∧
+        st.subLens.length = height ∧ ∀ i, i < height → st.subLens[i]? = some (width - 1) := by
+    intro hw hh hb
+    obtain ⟨st, h⟩ := ftps_isSome d width height bd hw hh hb
+    obtain ⟨_, _, _, h1, h2, h3⟩ := ftps_structure_partial d width height bd st h
+    exact ⟨st, h, h1, h2, h3⟩
+  refine ⟨⟨?_, ?_⟩, hfw⟩
+  · intro h
+    obtain ⟨st, hst⟩ := Option.isSome_iff_exists.1 h
+    obtain ⟨h1, h2, h3, _⟩ := ftps_structure_partial d width height bd st hst
+    exact ⟨h1, h2, h3⟩
+  · rintro ⟨hw, hh, hb⟩
+    obtain ⟨st, h, _⟩ := hfw hw hh hb
+    rw [h]; rfl
+
+/-- non-vacuity of `ftps_structure`: the hypotheses `width, height, bd ≥ 1` hold and the run is the one the theorem
+    describes (interior and both edge ranges); `FtCompat` (the step condition along the whole call list) is decidable
+    on instances through `FtOK` - here the two conjuncts of the conclusion are checked by evaluation. -/
+example : (0 < 3 ∧ 0 < 3 ∧ 0 < 2) ∧ (ftps 3 3 3 2).isSome = true ∧
+    (ftps 3 3 3 2).map (fun st => st.subLens) = some [2, 2, 2] ∧
+    (ftps 2 1 4 3).map (fun st => st.subLens) = some [0, 0, 0, 0] ∧
+    (ftps 2 4 1 3).map (fun st => st.subLens) = some [3] := by decide
 
 /-! ## Value level: what the constructed networks EVALUATE to (`Value*.lean` over `Ptn/Common/Einsum*.lean`) -/
 
